@@ -90,6 +90,11 @@ CHECKS["C13"] = dict(engine="Faults", design="§4 C13", category="fault_enumerat
     note="Trusted: TLC. Single faults only. Positions come from the real run (not from the spec); the spec's sequences are compared as drift.",
     technique="TLA+ spec (Faults.tla) + TLC exhaustive over flow x position x kind + exhaustive single-fault injection on the real code + TLC trace validation")
 
+CHECKS["C04"] = dict(engine="Enroll", design="§4 C04",
+    text="Enroll.tla models the honest node/server process of the four flows and the node's refuse-unless-bound rule; TLC checks for every configuration (flow x back end x wrappers x state/params x substitution) that enrolment completes (liveness under weak fairness, no stuck state) and ends with credentials exactly when nothing was substituted. The full product of 72 honest configurations plus six node-side substitutions per flow x back end is executed on the real library (in-memory, file and store-once back ends, AAD-honouring storage wrappers, real ClientConfigs and a real protocol.Dial through an InterceptingListener); response binding, parsed certificates, stored record and refusals are logged and judged by EnrollTrace.tla.",
+    note="Trusted: Go crypto/x509/tls, TLC. The enrolment runs through the public functions; only the final dial goes over loopback.",
+    technique="TLA+ spec (Enroll.tla) + TLC exhaustive incl. liveness + full configuration-product replay + TLC trace validation")
+
 PENDING = {}
 for i in range(1, 21):
     pid = "C%02d" % i
